@@ -146,7 +146,7 @@ def coq_bool_cases(tag, header, cases, chunk=250, timeout=900, keep=False):
     for ci in range(0, len(cases), chunk):
         part = cases[ci:ci + chunk]
         name = "%s_%d_%d" % (tag, os.getpid(), ci // chunk)
-        body = [header, "From Coq Require Import List Bool.", "Import ListNotations.",
+        body = ["From Coq Require Import List Bool.", "Import ListNotations.", header,
                 "Definition xv_cases : list bool := ["]
         body.append(";\n".join("(%s)" % c for c in part))
         body.append("].")
@@ -187,7 +187,7 @@ def coq_nat_cases(tag, header, cases, chunk=100, timeout=900):
     for ci in range(0, len(cases), chunk):
         part = cases[ci:ci + chunk]
         name = "%s_%d_n%d" % (tag, os.getpid(), ci // chunk)
-        body = [header, "From Coq Require Import List.", "Import ListNotations.",
+        body = ["From Coq Require Import List.", "Import ListNotations.", header,
                 "Definition xv_cases : list nat := [", ";\n".join("(%s)" % c for c in part), "]%nat.",
                 "Eval vm_compute in xv_cases."]
         files.append((ci, len(part), name, "\n".join(body)))
